@@ -60,6 +60,11 @@ CLAIMED = {
         design='DESIGN.md §5 C15',
         note=NOTE_COMMON + 'NULL pivot keys raise TypeError (known finding F-20); pivot keys of one comparable class.',
         technique='Lean 4 proof of block placement/width + differential correspondence + un-pivot oracle'),
+    'C06': dict(
+        text=('UNDER CONSTRUCTION'),
+        design='DESIGN.md §5 C06',
+        note=NOTE_COMMON,
+        technique='Lean 4 proof (token-level round trip) + model parser vs shipped parser + grammar translation validation'),
     'C07': dict(
         text=('Lean theorems over the compile/exec model: the naming rule (alias / column name / source text); compiled SELECT '
               'targets are one per target, in order, all named; wildcard = the table\'s wildcard list in order; GROUP BY and '
